@@ -760,6 +760,10 @@ class App:
             tol1 = 1e-7 * s_scale + 200 * core.EPS * wmag / hstep
             tol2 = 1e-5 * scaleE + 2000 * core.EPS * wmag / hstep**2
             sig = {'model': self.mat['model'], 'kin': self.mat.get('kinematics'), 'rate': 'rate sensitivity' in self.mat}
+            # Is the argument of a symmetric tensor function (log / power of C or Ce) at this point a matrix with
+            # exactly repeated eigenvalues?  (known finding F-C10: the hand-written JVP rules select f'(lambda)
+            # there, which is not differentiable once more)
+            sig['tensor_arg_repeated_eigenvalues'] = self.repeated_eigs(Hs[i], st[i])
             if self.mat.get('kinematics') == 'seth hill':
                 # TensorMath.pow_symm documents that its derivative is inaccurate for nearly (not exactly)
                 # degenerate eigenvalues: the relative-difference formula loses ~eps/gap per derivative.
@@ -774,7 +778,6 @@ class App:
                     continue
                 # exactly repeated eigenvalues (C a multiple of the identity): recorded in the signature, see the
                 # known finding F-C10 (second derivative of pow_symm at exact degeneracy)
-                sig['C_isotropic_exact'] = bool(np.all(gaps == 0.0))
                 gaps = gaps[gaps > 0]
                 if gaps.size:
                     gmin = float(np.min(gaps))
@@ -785,8 +788,29 @@ class App:
                         continue
             ctx.require(abs(a1 - d1) <= tol1, 'C10', 'stress_vs_fd',
                         lambda: 'directional stress from autodiff %.12g vs finite difference of the energy %.12g (diff %.3g, tol %.3g)' % (a1, d1, a1 - d1, tol1), sig=sig)
+            sig['tangent_error_below_1pct_of_modulus'] = bool(abs(a2 - d2) <= 1e-2 * scaleE)
             ctx.require(abs(a2 - d2) <= tol2, 'C10', 'tangent_vs_fd',
                         lambda: 'directional tangent from autodiff %.12g vs second difference of the energy %.12g (diff %.3g, tol %.3g)' % (a2, d2, a2 - d2, tol2), sig=sig)
+
+    def repeated_eigs(self, H, state):
+        F = H + np.eye(3)
+        mats = []
+        if self.visco:
+            for b in range(self.nb):
+                Fe = F @ np.linalg.inv(state[9 * b:9 * b + 9].reshape(3, 3))
+                mats.append(Fe.T @ Fe)
+        elif self.ref.kin == 'large deformations':
+            Fe = F @ np.linalg.inv(state[1:10].reshape(3, 3))
+            mats.append(Fe.T @ Fe)
+        elif self.ref.kin == 'seth hill':
+            mats.append(F.T @ F)
+        for Cm in mats:
+            if not np.all(np.isfinite(Cm)):
+                continue
+            w = np.linalg.eigvalsh(0.5 * (Cm + Cm.T))
+            if min(abs(w[1] - w[0]), abs(w[2] - w[1])) <= 1e-14 * abs(w[2]):
+                return True
+        return False
 
     def restart(self):
         self.ctx.fault('restart')
